@@ -16,7 +16,7 @@ CLASS_LAYER = [PA + 'Pauli.__matmul__#Pauli', PA + 'Pauli.__neg__', PA + 'Pauli.
                PA + 'PauliList.rotate_by#nomask', PA + 'PauliList.transform_by#nomask', PA + 'PauliList.rotate_by#mask', PA + 'PauliList.transform_by#mask', ST + 'CliffordMap.copy', ST + 'CliffordMap.compose',
                ST + 'CliffordMap.to_state#r', ST + 'CliffordMap.to_state#none', ST + 'StabilizerState.copy', ST + 'StabilizerState.to_map',
                ST + 'StabilizerState.expect#list', ST + 'identity_map', ST + 'StabilizerState.measure#list', ST + 'StabilizerState.measure#state', ST + 'StabilizerState.postselect',
-               ST + 'StabilizerState.expect#state', ST + 'CliffordMap.inverse', ST + 'clifford_rotation_map', ST + 'zero_state', ST + 'one_state', ST + 'maximally_mixed_state', ST + 'StabilizerState.entropy#mask', ST + 'StabilizerState.entropy#qubits', ST + 'StabilizerState.get_prob', ST + 'CliffordMap.embed', PA + 'PauliMonomial.__neg__', PA + 'PauliMonomial.__rmul__', PA + 'PauliMonomial.copy', PA + 'PauliMonomial.as_polynomial', PA + 'PauliPolynomial.__neg__', PA + 'PauliPolynomial.__rmul__', PA + 'PauliPolynomial.copy', ST + 'random_pauli_map', 'pyclifford/circuit.py::clifford_rotation_gate#noqubits', 'pyclifford/circuit.py::CliffordGate.compile#generator', 'pyclifford/circuit.py::CliffordGate.independent_from', 'pyclifford/circuit.py::CliffordLayer.independent_from', 'pyclifford/circuit.py::MeasureLayer.obs_gs_ps', PA + 'PauliList.__getitem__#int', PA + 'Pauli.rotate_by#nomask', PA + 'Pauli.transform_by#nomask', 'pyclifford/circuit.py::MeasureLayer.forward', PA + 'PauliList.__neg__', PA + 'PauliList.rotate_by#state', PA + 'PauliList.transform_by#state', PA + 'PauliPolynomial.__matmul__#poly', PA + 'Pauli.__matmul__#Monomial',
+               ST + 'StabilizerState.expect#state', ST + 'CliffordMap.inverse', ST + 'clifford_rotation_map', ST + 'zero_state', ST + 'one_state', ST + 'maximally_mixed_state', ST + 'StabilizerState.entropy#mask', ST + 'StabilizerState.entropy#qubits', ST + 'StabilizerState.get_prob', ST + 'CliffordMap.embed', PA + 'PauliMonomial.__neg__', PA + 'PauliMonomial.__rmul__', PA + 'PauliMonomial.copy', PA + 'PauliMonomial.as_polynomial', PA + 'PauliPolynomial.__neg__', PA + 'PauliPolynomial.__rmul__', PA + 'PauliPolynomial.copy', ST + 'random_pauli_map', 'pyclifford/circuit.py::clifford_rotation_gate#noqubits', 'pyclifford/circuit.py::CliffordGate.compile#generator', 'pyclifford/circuit.py::CliffordGate.independent_from', 'pyclifford/circuit.py::CliffordLayer.independent_from', 'pyclifford/circuit.py::MeasureLayer.obs_gs_ps', 'pyclifford/circuit.py::H#1', 'pyclifford/circuit.py::S#1', 'pyclifford/circuit.py::X#1', 'pyclifford/circuit.py::Y#1', 'pyclifford/circuit.py::Z#1', 'pyclifford/circuit.py::CNOT#2', PA + 'PauliList.__getitem__#int', PA + 'Pauli.rotate_by#nomask', PA + 'Pauli.transform_by#nomask', 'pyclifford/circuit.py::MeasureLayer.forward', PA + 'PauliList.__neg__', PA + 'PauliList.rotate_by#state', PA + 'PauliList.transform_by#state', PA + 'PauliPolynomial.__matmul__#poly', PA + 'Pauli.__matmul__#Monomial',
                'pyclifford/circuit.py::CliffordGate.forward#generator_global', 'pyclifford/circuit.py::CliffordGate.backward#generator_global',
                'pyclifford/circuit.py::CliffordGate.forward#map_global'] + GATES[3:] + LOCAL_GATES + LOCAL_STATE + \
               [PA + '%s.__rmul__#%s' % (c, t) for c in ('Pauli', 'PauliList') for t in ('1', 'i', 'm1', 'mi')]
@@ -141,10 +141,13 @@ def C10(run):
 
 
 def C11(run):
-    run.deductive(keys=[LOCAL_GATES[2], GATES[2], U + 'mask', PA + 'PauliList.transform_by#mask', PA + 'PauliList.transform_by#nomask', U + 'pauli_transform', U + 'pauli_combine'],
+    named = ['pyclifford/circuit.py::%s#1' % g for g in ('H', 'S', 'X', 'Y', 'Z')] + ['pyclifford/circuit.py::CNOT#2']
+    run.deductive(keys=named + [LOCAL_GATES[2], GATES[2], U + 'mask', PA + 'PauliList.transform_by#mask', PA + 'PauliList.transform_by#nomask', U + 'pauli_transform', U + 'pauli_combine'],
                   lemmas=MASK_LEMMAS)
     run.bounded_check('c11_named', _b().c11_named, Nmax=q(run, 3, 5))
-    return 'other', ('the gate tables are finite: all named gates, both CNOT orientations and C(0..23) are checked completely (exhaustive) '
+    return 'other', ('deductive: H, S, X, Y, Z and CNOT (both orientations) construct exactly the tables written down from the property statement '
+                     '(X / Z images with signs, for every qubit argument); '
+                     'the gate tables are finite: all named gates, both CNOT orientations and C(0..23) are checked completely (exhaustive) '
                      'against the textbook images, closure under compose/inverse, rejection of bad indices, construction after in-place '
                      'modification of earlier gates; "wherever they are placed in a register": deductive for all N and all qubit tuples - a '
                      'map gate acts on the compressed strings of its qubits as its table and leaves all other columns untouched '
@@ -248,7 +251,7 @@ TECHNIQUE = {
     'C08': 'deductive contracts (z3): z2rank = GF(2) rank (abstract rank + three assumed classical lemmas, echelon invariant), stabilizer_entropy / StabilizerState.entropy = the textbook rank formulas; bounded dense von Neumann entropy oracle for the bridge',
     'C09': 'deductive contracts (z3): every deterministic gate (generator / map, full register / any qubit tuple) is exactly the rotation / map transformation on its qubits and leaves all other columns untouched, mask(), independent_from; bounded exhaustive layer-packing scan and program enumeration against gate-by-gate application',
     'C10': 'deductive contracts (z3): backward of a generator gate = rotation by minus the generator (+ double-rotation lemma), backward of a map gate = transformation by the GF(2)-inverse table, compile of a generator gate; bounded forward/backward round trips incl. histories',
-    'C11': 'exhaustive check of the finite gate tables against textbook images (+ construction histories); deductive placement: a map gate acts as its table on its qubits for every register size',
+    'C11': 'deductive contracts (z3): H, S, X, Y, Z, CNOT construct the textbook tables; a map gate acts as its table on its qubits for every register size; exhaustive native check of all finite gate tables incl. C(0..23), closure, construction histories',
     'C12': 'deductive contracts (z3): map_to_state / state_to_map / to_state / to_map / stabilizer_project, duality (to_state turns the canonical commutation relations into the tableau structure), identity_map, zero / maximally mixed state; bounded dense oracle for the other constructors',
     'C13': 'bounded conformance testing torch vs numpy port (tensor code is outside the fragment of the VC generator)',
     'C14': 'deductive contracts on stabilizer_measure, stabilizer_postselection, postselect, MeasureLayer.forward (z3); bounded dense trajectory oracle for circuits',
